@@ -665,6 +665,60 @@ pub fn c02_c14(tier: Tier, which: &'static str) -> i32 {
             rep.merge(&c);
         });
     }
+    if which == "C02" {
+        // file names that are not valid UTF-8, and unusual valid ones: the walk yields exactly the
+        // entries whose (lossily rendered) relative path the glob matches - a name the walker
+        // cannot render must not shift or drop anything
+        use std::ffi::OsStr;
+        use std::os::unix::ffi::OsStrExt;
+        let dir = scratch.root.join("bytes02");
+        let _ = std::fs::remove_dir_all(&dir);
+        let n1 = OsStr::from_bytes(b"caf\xE9");
+        let n2 = OsStr::from_bytes(b"\xFF");
+        let n3 = OsStr::from_bytes(b"a\xC0b.txt");
+        let n4 = OsStr::from_bytes(b"d\xFF");
+        let t = dir.join("t");
+        let _ = std::fs::create_dir_all(t.join(n1).join("a"));
+        let _ = std::fs::create_dir_all(t.join(n4).join("sub"));
+        let _ = std::fs::create_dir_all(t.join("a").join(n4));
+        for f in [t.join(n1).join(n2), t.join(n1).join("a").join(n3), t.join(n3), t.join(n4).join("x.txt"), t.join(n4).join("sub").join("y.txt"), t.join("a").join(n4).join("x.txt"), t.join("a").join("x.txt"), t.join("we\\ird.txt"), t.join("sp ace"), t.join("new\nline")] {
+            let _ = std::fs::write(f, b"");
+        }
+        // reference: every entry beneath the base, from the file system itself
+        fn all_entries(dir: &std::path::Path, base: &std::path::Path, out: &mut Vec<PathBuf>) {
+            if let Ok(rd) = std::fs::read_dir(dir) {
+                for e in rd.flatten() {
+                    let p = e.path();
+                    out.push(p.strip_prefix(base).unwrap().to_path_buf());
+                    if e.file_type().map_or(false, |t| t.is_dir()) {
+                        all_entries(&p, base, out);
+                    }
+                }
+            }
+        }
+        let mut entries = vec![];
+        all_entries(&t, &t, &mut entries);
+        let mut walks = 0u64;
+        for g in ["**", "*", "*/*", "*.txt", "*/*.txt", "*/x.txt", "*/*/*.txt", "a/*/x.txt", "caf*/*", "caf*/a/*", "d*/sub/*", "?/**", "[!a]*/*", "**/*.txt", "*/sub/*", "{a,d*}/**"] {
+            let Ok(glob) = Glob::new(g) else { continue };
+            let Some(got) = fswalk::collect_glob(glob.walk(t.clone()), 500) else { continue };
+            walks += 1;
+            let mut yielded: Vec<PathBuf> = got.iter().filter_map(|it| if let Got::Ok(e) = it { Some(e.rel.clone()) } else { None }).filter(|r| !r.as_os_str().is_empty()).collect();
+            let mut expected: Vec<PathBuf> = entries.iter().filter(|r| glob.is_match(r.as_path())).cloned().collect();
+            yielded.sort();
+            expected.sort();
+            if yielded != expected {
+                rep.alarm(Alarm {
+                    class: None,
+                    key: format!("bytes02 {}", g),
+                    msg: format!("walk of `{}` in a tree with non-UTF-8 and unusual names: yielded {:?}, but the entries whose relative path the glob matches are {:?}", g, yielded, expected),
+                    case: json!({"kind": "bytes", "what": g}),
+                });
+            }
+        }
+        rep.add("non_utf8_walks", walks);
+        let _ = std::fs::remove_dir_all(&dir);
+    }
     if which == "C14" {
         // file names that are not valid UTF-8 (the candidate path is a lossy rendition; the
         // entry's path segments must still be slices of the real path)
